@@ -415,13 +415,12 @@ def count_events(ctx, w, kind, inner=lambda e: e.get("k", 1) not in (0, e.get("n
 def check_C11(ctx, w):
     ctx.level = "fault_enumeration"
     ctx.rule = ("every subset of {remove object file} x {remove index entry (structural edit of schema.json)} x {add 0,1,2 valid object files with fresh uuids} x {remove schema.json} on databases of "
-                "0..3 objects (one in three with a moved index entry), all synchronous configurations; then the recovery procedure, more writes, reopen; exhaustive in the thorough tier; "
+                "0..3 (thorough: 0..4) objects (one in three with a moved index entry), all synchronous configurations; then the recovery procedure, more writes, reopen; exhaustive in the thorough tier; "
                 "non-trivial = at least one damage")
     binp = vlib.build()
     uni = gen.universe(binp)
-    tests = gen.damage_tests(uni, ctx.rng, limit=ctx.q(600, None))
-    if not ctx.quick:
-        ctx.exhaustive = True
+    tests = gen.damage_tests(uni, ctx.rng, limit=None, nslots=ctx.q(3, 4))
+    ctx.exhaustive = True
     seq_pipeline(ctx, w, tests, ["Conf_C11", "Conf_C01"])
     # design level (spec/SodRepair.tla): every damage sequence on every consistent database of the bounded model
     rcfg = ("SPECIFICATION Spec\nCONSTANTS\n  Slots = {%s}\n  Vals = {0, 1}\n  MaxDamage = %d\nINVARIANTS ControlIff RepairConverges NoFalsePositive\n"
